@@ -157,7 +157,7 @@ def run(tier: str) -> int:
     rep.assumptions = ASSUMPTIONS
     known = {k["id"]: k for k in harness.known_for(PROP)}
     # ---- Set A
-    jobs = [("bin", op) for op in e2.table_keys("get_binop_instruction")] + [("un", op) for op in e2.table_keys("get_unop_instruction")]
+    jobs = [("bin", op) for op in e2.table_keys("get_binop_instruction")] + [("un", op) for op in e2.table_keys("get_unop_instruction")] + [("e_hash", "_e(HASH)")]
     resA = harness.pmap(e2.c03_one_operator, jobs)
     tot = dict(obligations=0, unsat=0, sat=0, unknown=0, model_gaps=0, paths=0, solver_s=0.0)
     samples = []
